@@ -690,7 +690,8 @@ fn run_history<E: CoreApi + MgmtApi + RbacApi>(e: &mut E, steps: &str, cx: &mut 
                 Err(_) => {
                     out.push("P".to_string());
                     // the state after an unwinding management call is unspecified
-                    if !f[0].starts_with('?') {
+                    // (save_policy's filtered-adapter assertion fires before anything is touched)
+                    if !f[0].starts_with('?') && f[0] != "SV" {
                         poisoned = true;
                     }
                 }
